@@ -130,7 +130,10 @@ class GenerateWasmVisitor(Visitor.DefaultVisitor):
         self, vai: LinearIR.VariableAccessInstruction, ctx: Context
     ):
         assert ctx.Code
-        if vai.Scope == LinearIR.VariableAccessScope.FUNCTION_ARGUMENT:
+        if (
+            vai.Scope == LinearIR.VariableAccessScope.FUNCTION_ARGUMENT
+            and vai.Store is None
+        ):
             index = vai.Variable
             ctx.Code.AddInstruction(
                 WebAssembly.Instruction(
@@ -143,6 +146,15 @@ class GenerateWasmVisitor(Visitor.DefaultVisitor):
                     (ctx.GetLocalForReference(vai.Reference),),
                 )
             )
+        else:
+            raise RuntimeError(
+                f"Unsupported variable access: {vai.OpCode} {vai.Scope}"
+            )
+
+    def v_Instruction(self, instruction: LinearIR.Instruction, ctx: Context):
+        # Everything without a handler of its own cannot be translated, and
+        # must not be dropped silently
+        raise RuntimeError(f"Unsupported instruction: {instruction.OpCode}")
 
     def __PushValueOntoStack(self, value: LinearIR.Value, ctx: Context):
         assert ctx.Code
